@@ -412,6 +412,7 @@ class Gen:
             d = rng.choice(['d1', 'd2'])
             DEF, MK, NAME, T = self.newvar(), self.newvar(), self.newvar(), self.newvar()
             es = [E() for _ in range(rng.choice([2, 3]))]
+            self.extra[T] = [(NAME, []), (DEF, [])]            # the temporary spelled like the generated macro's own name
             self.in_template |= {T, NAME, MK}
             return ('mac', s, [d, DEF, MK, NAME, T, es])
         if s == 'gen-or':
@@ -420,7 +421,7 @@ class Gen:
             d = rng.choice(['d1', 'd2'])
             WITH, WITH2, GOR, T, U = [self.newvar() for _ in range(5)]
             self.extra[U] = [(T, [])]
-            self.extra[T] = [(U, [])]
+            self.extra[T] = [(U, []), (GOR, []), (WITH, [])]     # the temporary spelled like the generated macro itself
             self.in_template |= {WITH, GOR, T, U}
             return ('mac', s, [d, WITH, WITH2, GOR, T, U, E()])
         if s == 'aif':
@@ -430,7 +431,8 @@ class Gen:
                 self.nested_aif = True     # F-C07-2: an aif inside the free-name closure of another aif
             test = ('bool', False) if rng.random() < 0.3 else E()
             self.aif_then += 1
-            then = self.expr(scope + [it], depth - 1)
+            # every aif calls its variable `it`: inside the branch the enclosing aifs' variables are shadowed
+            then = self.expr([v for v in scope if v not in self.fixed] + [it], depth - 1)
             self.aif_then -= 1
             return ('mac', s, [it, test, then, E()])
         return self.atom(scope)
@@ -583,9 +585,14 @@ class Renderer:
             if ref:
                 cond_it = self.it_stack[-1] if (self.defect and self.it_stack) else it
                 rt = R(test)
-                self.it_stack.append(it)
-                rthen = R(then)
-                self.it_stack.pop()
+                if self.defect and self.it_stack and then == ('var', it):
+                    # the branch is the bare identifier `it`: an identifier closure is looked up by name through the
+                    # recorded redirect as well, i.e. in the enclosing aif's environment
+                    rthen = nm(self.it_stack[-1])
+                else:
+                    self.it_stack.append(it)
+                    rthen = R(then)
+                    self.it_stack.pop()
                 return "((lambda (%s) (if %s %s %s)) %s)" % (nm(it), nm(cond_it), rthen, R(alt), rt)
             return "(aif %s %s %s)" % (R(test), R(then), R(alt))
         if s == 'syn-sibling':
@@ -1084,20 +1091,36 @@ def run_mid(ctx, d, exe, ncases):
             reqs.append("analyze_swap 400 %d %d %s" % (sym[sw[1]], sym[sw[2]], mid_tokens(sw[0], sym)))
         cases.append("(case %d %s)" % (n, mid_text(f)))
     mo = ctx.run_model(exe, reqs)[len(setup):]
-    path = os.path.join(B.SCRATCH, "c07_mid_%d.cases" % os.getpid())
-    with open(path, "w") as fh:
-        fh.write("\n".join(cases) + "\n")
-    try:
-        r = B.run_chibi(d, [os.path.join(ROOT, "harness", "c07_analyze.scm"), path], timeout=120 if not ctx.thorough else 900)
-    finally:
-        os.unlink(path)
+    # the pinned chibi can die (SIGSEGV) some cases after an error was raised and caught during analyze (reported to
+    # C01 in round 1): restart the driver behind the last complete answer; a case that kills a fresh process is skipped
     impl = {}
-    for line in r.stdout.split("\n"):
-        sp = line.find(" ")
-        if sp > 0 and line[:sp].isdigit():
-            impl[int(line[:sp])] = " ".join(line[sp + 1:].split())
-    if "DONE" not in r.stdout:
-        ctx.broken("mid-correspondence:C07", "analyze driver died rc=%s after %d/%d cases: %s" % (r.returncode, len(impl), len(forms), r.stderr[-600:]))
+    ncase = len(cases) - len(deflines)
+    start, restarts, skipped = 0, 0, []
+    path = os.path.join(B.SCRATCH, "c07_mid_%d.cases" % os.getpid())
+    while start < ncase and restarts < 25:
+        with open(path, "w") as fh:
+            fh.write("\n".join(deflines + cases[len(deflines) + start:]) + "\n")
+        try:
+            r = B.run_chibi(d, [os.path.join(ROOT, "harness", "c07_analyze.scm"), path], timeout=120 if not ctx.thorough else 900)
+        finally:
+            os.unlink(path)
+        lines = r.stdout.split("\n")
+        got = 0
+        for line in lines[:-1]:                     # the last element is an unterminated (partial) line or ""
+            sp = line.find(" ")
+            if sp > 0 and line[:sp].isdigit():
+                impl[int(line[:sp])] = " ".join(line[sp + 1:].split()); got += 1
+        if "DONE" in lines:
+            break
+        restarts += 1
+        nxt = min([n for n in range(start, ncase) if n not in impl] or [ncase])
+        if got == 0:
+            skipped.append(nxt); nxt += 1           # died on the first case of a fresh process
+        start = nxt
+    if restarts:
+        ctx.note("K-mid: the analyze driver died %d time(s) (rc=%s) and was restarted; cases skipped: %s" % (restarts, r.returncode, [mid_text(forms[k][0]) for k in skipped]))
+    if restarts >= 25 or len(skipped) > 3:
+        ctx.broken("mid-correspondence:C07", "analyze driver keeps dying (rc=%s), %d/%d cases answered: %s" % (r.returncode, len(impl), len(forms), r.stderr[-300:]))
     shown = 0
     for n, (f, sw) in enumerate(forms):
         if n not in impl:
